@@ -149,6 +149,8 @@ def ev(e, env, resolver=None):
         return True
     if isinstance(e, ast.IfExp):
         return ev(e.body if ev(e.test, env, resolver) else e.orelse, env, resolver)
+    if isinstance(e, ast.Call) and isinstance(e.func, ast.Name) and e.func.id == 'bool' and len(e.args) == 1 and not e.keywords:
+        return bool(ev(e.args[0], env, resolver))
     if isinstance(e, ast.Call) and isinstance(e.func, ast.Name) and e.func.id in IDENTITY_CALLS \
             and len(e.args) == 1 and not e.keywords:
         return ev(e.args[0], env, resolver)
